@@ -4,12 +4,15 @@ from .. import common, gen, mergecorr, ser
 
 TRUSTED_COMMON = [
     'Coq 8.16.1 kernel and vm_compute (used for FactsOk lemmas, finite sweeps, refutation witnesses and for evaluating the model in the generated case files); no native_compute',
-    'tools/extract_facts.py (T1 extractor for constants/tables), tools/translate_src.py (T1b Python-ast -> Gallina translator for the pure decision functions and the field-mutating prefixes of _replace_self / _replace_other / _propagate_implicit_values; its output is proved equal to the model in Proofs/SrcOk.v), vlib/ser.py (Python node -> Coq term printer, string interning), vlib/gen.py (generators)',
+    'tools/extract_facts.py (T1 extractor for constants/tables), tools/translate_src.py (T1b Python-ast -> Gallina translator for the pure decision functions and the field-mutating prefixes of _replace_self / _replace_other / _propagate_implicit_values; its output is proved equal to the model in Proofs/SrcOk.v), tools/translate_merge.py (T1c: control skeletons of the four on_merge_impl methods over the model's primitives, API calls mapped by name; proved equal to the rules of Model/Merge.v in Proofs/SrcMergeOk.v), vlib/ser.py (Python node -> Coq term printer, string interning), vlib/gen.py (generators)',
     'the hand-written Gallina model is tied to /repo by correspondence (sampled for tree recursion, exhaustive for finite flag logic), not by translation',
     'modelled, not verified: PyYAML (scanner/parser/composer/resolver/emitter), pickle/copy, CPython semantics, error message text',
 ]
 
 _build_cache = {}
+# properties whose theorems unfold the translated flag functions / the translated merge rules
+SRC_PROPS = {'C01', 'C02', 'C03', 'C04', 'C05', 'C06', 'C07', 'C08', 'C13', 'C15', 'C16', 'C17', 'C18', 'C19'}
+SRCM_PROPS = {'C02', 'C03', 'C04', 'C05', 'C06', 'C07', 'C08', 'C13', 'C15', 'C16'}
 
 
 def build(rep):
@@ -18,12 +21,21 @@ def build(rep):
         _build_cache['b'] = common.build_coq()
     b = _build_cache['b']
     rep.oblige('T1: Gen/Facts.v regenerated from /repo (fail-closed extraction)', b['facts_ok'], b['facts_log'][-500:] if not b['facts_ok'] else '')
-    rep.oblige('T1b: Gen/Src.v translated from the Python source of the flag getters, has_priority_over, _validate_index, _get_child_kwargs, the flag part of _replace_self / _replace_other, the guards and the per-child step of _propagate_implicit_values (fail-closed translator)',
-               b['src_ok'], b['src_log'][-500:] if not b['src_ok'] else '')
-    sok = common.vo_ok('Proofs/SrcOk')
-    rep.oblige('coq: Proofs.SrcOk compiles (every translated definition is proved equal to the model function the theorems use)', sok,
-               '' if sok else json.dumps([e for e in b['errors'] if e['file'].startswith('Proofs/SrcOk') or e['file'].startswith('Gen/Src')][:2]))
-    rep.checker_cmds.append(f'tools/extract_facts.py coq/Gen/Facts.v && tools/translate_src.py coq/Gen/Src.v && make -k -j{common.NCPU} -C coq (full .vo build)')
+    # the translated definitions are obligations of the properties whose theorems rest on the translated functions (a change of the flag /
+    # merge code is no evidence against, say, the evaluation order or the bytecode rewriter)
+    if rep.pid in SRC_PROPS:
+        rep.oblige('T1b: Gen/Src.v translated from the Python source of the flag getters, has_priority_over, _validate_index, _get_child_kwargs, the flag part of _replace_self / _replace_other, the guards and the per-child step of _propagate_implicit_values (fail-closed translator)',
+                   b['src_ok'], b['src_log'][-500:] if not b['src_ok'] else '')
+        sok = common.vo_ok('Proofs/SrcOk')
+        rep.oblige('coq: Proofs.SrcOk compiles (every translated definition is proved equal to the model function the theorems use)', sok,
+                   '' if sok else json.dumps([e for e in b['errors'] if e['file'].startswith('Proofs/SrcOk') or e['file'].startswith('Gen/Src.')][:2]))
+    if rep.pid in SRCM_PROPS:
+        rep.oblige('T1c: Gen/SrcMerge.v - the control skeletons of ConfigNode / ComposedNode / FunctionNode / ConfigList.on_merge_impl translated from the Python source over the model\'s primitives (fail-closed translator)',
+                   b['srcm_ok'], b['srcm_log'][-500:] if not b['srcm_ok'] else '')
+        mok = common.vo_ok('Proofs/SrcMergeOk')
+        rep.oblige('coq: Proofs.SrcMergeOk compiles (the translated skeletons are proved equal to leaf_merge / comp_merge (merge_step, prune) / func_merge / list_merge of Model/Merge.v)', mok,
+                   '' if mok else json.dumps([e for e in b['errors'] if e['file'].startswith('Proofs/SrcMergeOk') or e['file'].startswith('Gen/SrcMerge')][:2]))
+    rep.checker_cmds.append(f'tools/extract_facts.py coq/Gen/Facts.v && tools/translate_src.py coq/Gen/Src.v && tools/translate_merge.py coq/Gen/SrcMerge.v && make -k -j{common.NCPU} -C coq (full .vo build)')
     return b
 
 
